@@ -297,8 +297,8 @@ def fam_c01(tier, seed, prop="C01"):
     prods = []
     for n in (2, 3):
         prods += list(itertools.product(names, repeat=n))
-    if tier == "quick":
-        prods = _sample(rng, prods, 220)
+    prods = _sample(rng, prods, 220 if tier == "quick" else 900)
+    if True:
         # the shapes behind F1 are always present
         prods += [("r5", "w0", "r5"), ("r1025", "w0", "w2n"), ("w0", "r5"), ("r5", "w0")]
     for combo in prods:
